@@ -529,8 +529,16 @@ func (c *Ctx) errChecked(f *ssa.Function, call *ssa.Call) bool {
 
 // onlyEmptinessGuards: every branch that can bypass the loop containing `visit` tests the list itself (nil / Len() > 0).
 func (c *Ctx) onlyEmptinessGuards(f *ssa.Function, visitCall *ssa.Call, node *ssa.Parameter, fld string) bool {
+	return c.onlyEmptinessGuardsWithin(f, visitCall, node, fld, nil)
+}
+
+// onlyEmptinessGuardsWithin: the same, looking no further up than block top (the arm of a type switch).
+func (c *Ctx) onlyEmptinessGuardsWithin(f *ssa.Function, visitCall *ssa.Call, node *ssa.Parameter, fld string, top *ssa.BasicBlock) bool {
 	ok := true
 	for b := visitCall.Block().Idom(); b != nil; b = b.Idom() {
+		if top != nil && !(b == top || top.Dominates(b)) {
+			break
+		}
 		iff, isIf := b.Instrs[len(b.Instrs)-1].(*ssa.If)
 		if !isIf {
 			continue
@@ -572,14 +580,25 @@ func (c *Ctx) onlyEmptinessGuards(f *ssa.Function, visitCall *ssa.Call, node *ss
 func c10Chain(c *Ctx, d *Dispatcher) {
 	const rule = "C10.chain"
 	h := d.Handlers["SelectorExpression"]
+	var nodeVal ssa.Value
+	inRegion := func(b *ssa.BasicBlock) bool { return true }
 	if h == nil {
-		return
+		// the arm written out in the dispatcher itself
+		arm, ok := d.Inline["SelectorExpression"]
+		if !ok {
+			return
+		}
+		h, nodeVal = d.Fn, arm.Val
+		inRegion = func(b *ssa.BasicBlock) bool { return b == arm.Block || arm.Block.Dominates(b) }
 	}
 	pos := c.P.Pos(h.Pos())
 	// the chain collector: callee returning ([]string, error) taking the node
 	var coll *ssa.Function
 	var collCall *ssa.Call
 	instrs(h, func(b *ssa.BasicBlock, i int, in ssa.Instruction) {
+		if !inRegion(b) {
+			return
+		}
 		if call, ok := in.(*ssa.Call); ok {
 			if cal := calleeOf(call); cal != nil && c.inModule(cal) && cal.Signature.Results().Len() == 2 && cal.Signature.Results().At(0).Type().String() == "[]string" {
 				coll, collCall = cal, call
@@ -591,10 +610,14 @@ func c10Chain(c *Ctx, d *Dispatcher) {
 		return
 	}
 	// it is given the selector node itself
-	node := c.nodeParamOf(h, "SelectorExpression")
+	if nodeVal == nil {
+		if np := c.nodeParamOf(h, "SelectorExpression"); np != nil {
+			nodeVal = np
+		}
+	}
 	given := false
 	for _, a := range collCall.Call.Args {
-		if stripIface(a) == ssa.Value(node) {
+		if nodeVal != nil && stripIface(a) == nodeVal {
 			given = true
 		}
 	}
@@ -603,7 +626,7 @@ func c10Chain(c *Ctx, d *Dispatcher) {
 	joinOK, appendOK := false, false
 	instrs(h, func(b *ssa.BasicBlock, i int, in ssa.Instruction) {
 		call, ok := in.(*ssa.Call)
-		if !ok {
+		if !ok || !inRegion(b) {
 			return
 		}
 		if cal := calleeOf(call); cal != nil && cal.String() == "strings.Join" {
@@ -1294,6 +1317,41 @@ func (c *Ctx) inlineArmCoverage(rule string, d *Dispatcher, arm TSArm, name stri
 	}
 	for _, fld := range lists {
 		n++
+		cons := name + "." + fld
+		var hit *visit
+		for i := range vs {
+			v := &vs[i]
+			if v.Field != fld || !v.ViaAt {
+				continue
+			}
+			if v.Via != nil && inArm(v.Via.Block()) || v.Via == nil && inArm(v.Call.Block()) {
+				hit = v
+			}
+		}
+		if hit == nil {
+			c.R.Check(rule, cons, c.P.Pos(f.Pos()), false, "the elements of "+fld+" of *"+name+" are never handed to the analysis")
+			continue
+		}
+		var at *ssa.Call
+		for _, a := range hit.Call.Call.Args {
+			for _, rt := range plainOrigins.Roots(a) {
+				if rt.Kind == "call" {
+					at, _ = rt.V.(*ssa.Call)
+				}
+			}
+		}
+		okLoop, why := true, ""
+		if !hit.Full {
+			okLoop, why = c.countingLoopOver(hit.Fn, at)
+		}
+		c.R.Check(rule, cons, c.P.InstrPos(hit.Call), okLoop, "every element of "+fld+" must be visited: "+why)
+		c.R.Check("C10.child-errors", cons, c.P.InstrPos(hit.Call), c.errChecked(hit.Fn, hit.Call), "the error of visiting an element of "+fld+" must be returned")
+		if hit.Via != nil {
+			c.R.Check("C10.child-errors", cons+":helper", c.P.InstrPos(hit.Via), c.errChecked(f, hit.Via), "the error of the helper that visits "+fld+" must be returned")
+		} else {
+			c.R.Check(rule, cons+":guards", c.P.InstrPos(hit.Call), c.onlyEmptinessGuardsWithin(f, hit.Call, d.Param, fld, arm.Block), "the element loop must not be skipped by a condition other than the list being absent or empty")
+		}
+		continue
 		c.R.Undecided(rule, name+"."+fld, c.P.Pos(f.Pos()), "list children visited inside the dispatcher's own arm are not analysed")
 	}
 	return n
